@@ -126,6 +126,36 @@ def judge_file(data, st, case, quick_blocks=None):
                                       pad2=k2))
                     break
 
+    # 1a''. a header far longer than any number of blocks a recursive or
+    #       quadratic reader could take (100 000 bytes at the default
+    #       block, 3 000 bytes at blocks 1 and 2)
+    old_block = sut.get_chunk_size()
+
+    for j in (0, len(exp) - 1):
+        for k, block in ((100000, None), (3000, 1), (3000, 2), (20000, 7)):
+            try:
+                if block is not None and old_block is not None:
+                    sut.set_chunk_size(block)
+
+                blob = pad_header(data, exp[j]['span'], k)
+                recs, e = sut.read_records(blob, budget=False)
+            finally:
+                if old_block is not None:
+                    sut.set_chunk_size(old_block)
+
+            runs += 1
+            want = norm(base)
+            want[j] = dict(want[j])
+            want[j]['options'] = dict(want[j]['options'], pad='x' * k)
+
+            if e is not None or not same(recs, want):
+                st.violation('records-depend-on-header-length',
+                             'header %d padded by %d bytes, block %r: %r'
+                             % (j, k, block, e),
+                             dict(case, header=j, pad=k,
+                                  block=block or old_block))
+                break
+
     # 1b. empty lines before each header, through two full blocks
     for j, rec in enumerate(exp):
         if j == 0:
@@ -151,7 +181,8 @@ def judge_file(data, st, case, quick_blocks=None):
     #     with small buffers (they offer peek()), a real file, and a stream
     #     already positioned past some leading bytes
     hows = [('buffered', n) for n in (16, 61, 96, 97, 256, 1024, 4096)] + \
-        [('offset', k) for k in (1, 2, 7, 95, 96, 97, 4096)] + [('file',)]
+        [('offset', k) for k in (1, 2, 7, 95, 96, 97, 4096)] + \
+        [('file',), ('gzip',)]
 
     for how in hows:
         variants = [(data, base)]
